@@ -53,6 +53,17 @@ def make_run_dir():
     """Per-run directory, name derived from pid + counter only."""
     _DIR_COUNTER[0] += 1
     base = "/dev/shm" if os.path.isdir("/dev/shm") and os.access("/dev/shm", os.W_OK) else tempfile.gettempdir()
+    if _DIR_COUNTER[0] == 1:
+        # first use in this process: sweep directories left behind by worker processes that were terminated
+        # in the middle of a run (their pid is gone)
+        try:
+            for name in os.listdir(base):
+                parts = name.split("-")
+                if name.startswith("simfix-journal-") and len(parts) == 4 and parts[2].isdigit() \
+                        and not os.path.exists("/proc/" + parts[2]):
+                    shutil.rmtree(os.path.join(base, name), ignore_errors=True)
+        except OSError:
+            pass
     path = os.path.join(base, "simfix-journal-%d-%d" % (os.getpid(), _DIR_COUNTER[0]))
     if os.path.exists(path):
         shutil.rmtree(path, ignore_errors=True)
